@@ -285,10 +285,17 @@ impl WalkEntry {
                 };
                 Ok(ret)
             }
-            Err(e) if e.is_not_found() => {
+            // (Under -xdev walkdir looks up a starting point's device by
+            // following it: no such failure is one of a link that is not to
+            // be followed.)
+            Err(e) if e.is_not_found() || (follow == Follow::Never && e.depth() == Some(0)) => {
                 // Detect broken symlinks and replace them with explicit entries
                 if let (Some(path), Some(depth)) = (e.path(), e.depth()) {
-                    if let Ok(meta) = path.symlink_metadata() {
+                    if let Some(meta) = path
+                        .symlink_metadata()
+                        .ok()
+                        .filter(|meta| e.is_not_found() || meta.is_symlink())
+                    {
                         return Ok(Self {
                             inner: Entry::Explicit(path.into(), depth),
                             follow: Follow::Never,
